@@ -34,6 +34,18 @@ use report::*;
 
 
 pub fn replay_dispatch(prop: &str, case: &serde_json::Value) -> Vec<(String, String)> {
+    // cases recorded in a "with trace logging" section are replayed with the discarding TRACE logger installed
+    if case["trace_logging"].as_bool().unwrap_or(false) && !matches!(prop, "C01" | "C02" | "C03" | "C04" | "C20") {
+        let mut c2 = case.clone();
+        c2["trace_logging"] = serde_json::json!(false);
+        trace_logging(true);
+        let mut r = replay_dispatch(prop, &c2);
+        trace_logging(false);
+        for f in r.iter_mut() {
+            f.0 = format!("trace-logging:{}", f.0);
+        }
+        return r;
+    }
     match prop {
         "C01" | "C02" | "C03" | "C04" => sem::replay_sem(prop, case),
         "C05" => c05::replay(case),
